@@ -343,7 +343,7 @@ def judge_neighbours(case):
     """E(A).recompile(B) must behave exactly like a fresh E(B) for texts A != B that a normalising shortcut would confuse"""
     from .. import neighbours
 
-    nbs = neighbours.neighbours(case["prog"], case.get("only"))
+    nbs = neighbours.neighbours(case["prog"], case.get("only"), case.get("limit", 3))
     viol = []
     tags = set()
     keys = []
@@ -453,18 +453,21 @@ def more_fixed():
         yield {"ops": [["new", x], ["recompile", 0, y], ["call", 0, 0], ["recompile", 0, x], ["call", 0, 1]]}
 
 
-def fixed_neighbours():
-    """every weak-fingerprint twin (same length and Adler-32 / byte sum / CRC-32) of one fixed program, both directions"""
+def fixed_neighbours(chunk=6, only=None):
+    """EVERY neighbour pair (whitespace / comment look-alikes / case / normal forms inside strings, ==-equal literals of another
+    type, same spelling as another token type, weak-fingerprint twins: same length and Adler-32 / byte sum / CRC-32 ...) of three
+    fixed programs, in both directions through recompile()"""
     from .. import neighbours
 
-    body = M.ret([(M.lit_str("aa"), "3"), (M.lit_str("bb"), "1"), (M.lit_str("cc"), "1")])
-    prog = M.program("exp", body, salt="s", splitters=["uid"])
-    only = ["Adler", "transposed", "CRC"]
-    n = len(neighbours.neighbours(prog, only))
-    inputs = [M.enc_inputs({"uid": "u%d" % i}) for i in range(12)]
-    for d in (True, False):
-        for k in range(0, n, 4):
-            yield {"prog": prog, "inputs": inputs, "pick": list(range(k, min(n, k + 4))), "direction": d, "only": only}
+    for prog, envs in neighbours.fixed_programs():
+        n = len(neighbours.neighbours(prog, only, 99))
+        inputs = [M.enc_inputs(e) for e in envs]
+        for d in (True, False):
+            for k in range(0, n, chunk):
+                c = {"prog": prog, "inputs": inputs, "pick": list(range(k, min(n, k + chunk))), "direction": d, "limit": 99}
+                if only:
+                    c["only"] = only
+                yield c
 
 
 def run(ctx, rec):
@@ -472,7 +475,7 @@ def run(ctx, rec):
         runner.direct_run(ctx, rec, "fixed-histories", FIXED + list(more_fixed()), judge)
         if rec.violations:
             return
-        runner.direct_run(ctx, rec, "weak-fingerprint-twins", fixed_neighbours(), judge_neighbours)
+        runner.direct_run(ctx, rec, "all-neighbours-of-fixed-programs", fixed_neighbours(), judge_neighbours)
         if rec.violations:
             return
     runner.hyp_run(ctx, rec, "histories", histories(), judge, ctx.n(400, 2500))
